@@ -27,7 +27,8 @@ func tierGrids() []gridOpts {
 		deep := full
 		deep.MaxSlots, deep.DMin, deep.DMax = 1, 2, 2
 		deep.Strategies = []gen.Strategy{gen.RU(0), gen.RU(2), gen.OnDelete()}
-		deep.Histories = coreHistories
+		deep.Histories = []history{histories[1], histories[3], histories[5]}
+		deep.MinR = 1
 		return []gridOpts{full, deep}
 	}
 	t := full
@@ -82,12 +83,18 @@ func snapshotCheck(prop string, mod func(*gridOpts), extraRule string) int {
 	}, monitorOf(prop))
 	rep.AddStates(n, n)
 	rep.Validated = n
+	switch prop {
+	case "C03":
+		c03ScaleInClause(rep)
+	case "C12":
+		c12CensusClause(rep)
+	}
 	return rep.Finish()
 }
 
 func init() {
 	register("c03", "only pods that must go are deleted (snapshot enumeration)", func([]string) int {
-		return snapshotCheck("C03", nil, "Oracle: every pod delete is class (a) outside desired, (b) Failed/Succeeded and replaced, or (c) RollingUpdate, >= partition, revision != update revision; a live desired up-to-date pod (API truth) is never deleted.")
+		return snapshotCheck("C03", nil, "Plus the scale-in clause on the search driver: from every steady state the edit 'add slot k, replicas-1' followed by all interleavings of reconcile and kubelet progress deletes pod k and no other pod on every path and ends without pod k. Oracle: every pod delete is class (a) outside desired, (b) Failed/Succeeded and replaced, or (c) RollingUpdate, >= partition, revision != update revision; a live desired up-to-date pod (API truth) is never deleted.")
 	})
 	register("c04", "creates only at vacant desired ordinals (snapshot enumeration)", func([]string) int {
 		return snapshotCheck("C04", nil, "Oracle: every pod create is at a desired, non-slot ordinal that holds no claimed pod in the snapshot (or whose dead pod was just removed), never for a deleting set.")
@@ -99,7 +106,7 @@ func init() {
 		return snapshotCheck("C07", nil, "Oracle: an update-delete at i needs RollingUpdate, i >= partition and every higher desired pod present, updated, Running, Ready; <=1 per reconcile; new pods carry the revision their ordinal calls for and that revision's template; none under OnDelete.")
 	})
 	register("c12", "status tells the truth (snapshot enumeration)", func([]string) int {
-		return snapshotCheck("C12", nil, "Oracle on every status write: 0<=ready,current,updated<=replicas; observedGeneration = reconciled generation >= stored; currentRevision moves only to updateRevision and only when every claimed pod is updated and Ready.")
+		return snapshotCheck("C12", nil, "Plus the census clause on the search driver: at every quiescent fixed point reached from the C02 seeds (thorough: after any single deviation) the counters equal a census of the live pods (total, ready, at current revision, at update revision). Oracle on every status write: 0<=ready,current,updated<=replicas; observedGeneration = reconciled generation >= stored; currentRevision moves only to updateRevision and only when every claimed pod is updated and Ready.")
 	})
 	register("c14", "Parallel policy never waits (snapshot enumeration)", func([]string) int {
 		return snapshotCheck("C14", func(o *gridOpts) { o.Policies = []string{"Parallel"} }, "Oracle: an error-free reconcile creates every vacant desired ordinal and deletes every live pod outside the desired set; <=1 update delete.")
